@@ -26,6 +26,7 @@ func checkC09(c *Ctx, r *Report) {
 	ruleBufferBound(c, r, "buffer-bound")
 	ruleReadDiscipline(c, r, "full-reads")
 	ruleUvarintLen(c, r, "varint-length")
+	ruleVarintWrappers(c, r, "varint-wrappers", "")
 	ruleConstTypes(c, r, "const-types")
 	ruleRejectsOnlyDamage(c, r, "rejects-only-damage")
 	r.rule("prog-owners", 20, "only the listed functions touch Prog.code/constants/positions; Load fills slices it allocated itself (no aliasing of the read buffer)")
@@ -39,7 +40,9 @@ func checkC13(c *Ctx, r *Report) {
 	ruleReadDiscipline(c, r, "no-dropped-read")
 	ruleNoEOFTolerance(c, r, "no-eof-tolerance")
 	ruleHeaderGuards(c, r, "header-guards")
+	ruleLoadGating(c, r, "use-after-failed-load")
 	ruleUvarintLen(c, r, "varint-length")
+	ruleVarintWrappers(c, r, "varint-wrappers", "")
 	spec, err := loadFormatSpec()
 	if err == nil {
 		ruleSectionAgreement(c, r, "section-agreement", spec)
